@@ -438,21 +438,7 @@ def correspondence(ctx):
     )
     rng = ctx.subrng("corr")
 
-    # Two behaviour switches of the model (Model/SeqFormats.lean `Cfg`) are read off the code under test by one probe
-    # each; the code is then compared with THAT model on all inputs.  Every theorem is proved for every Cfg.
-    cfg = {
-        "cfg_drop_pre_label": real_bytes("x\n>a\nAC\n") == [["a", "AC"]],
-        "cfg_gde_hash_label": real_strict(["#a", "AC"], "%#") == [["a", "AC"]],
-    }
-    for k, v in cfg.items():
-        bump(out, k, v)
-    ctx.notes.append(f"model behaviour switches probed from the code: {cfg}")
-
-    class _Drv:
-        def batch(self, reqs):
-            return ctx.driver.batch([(c, dict(o, **cfg)) for c, o in reqs])
-
-    drv = _Drv()
+    drv = ctx.driver
 
     # ---- 1. str.splitlines ------------------------------------------------
     texts = []
@@ -938,6 +924,83 @@ def roundtrip_once(scratch, kind, sfx, cmp_, names, seqs, mt, tag="rt"):
     return f"roundtrip:{fam}:{cls}", want, got
 
 
+EXPLICIT_FORMATS = ["fasta", "phylip", "paml", "gde"]
+OTHER_SUFFIX = {  # suffixes that name a DIFFERENT supported format than the explicit one
+    "fasta": ["aln", "phylip", "paml", "gde", "gb", "nex", "msf", "clustal"],
+    "phylip": ["fa", "fasta", "paml", "gde", "aln", "mfa"],
+    "paml": ["fa", "fasta", "phylip", "gde", "aln", "gbk"],
+    "gde": ["fa", "fasta", "phylip", "paml", "aln", "nxs"],
+}
+
+
+def gen_filename(rng, fmt):
+    """(file name, class) for the explicit-format round trip: the suffix never has to agree with `fmt`"""
+    cls = rng.choice(["other-format", "other-format", "other-format", "none", "unknown", "upper", "multidot", "same"])
+    stem = rng.choice(["genes", "x", "my_seqs", "a-b", "s1"])
+    cmp_ = rng.choice(["", "", ".gz", ".bz2", ".zip"])
+    if cls == "other-format":
+        name = f"{stem}.{rng.choice(OTHER_SUFFIX[fmt])}{cmp_}"
+    elif cls == "none":
+        name, cmp_ = stem, ""
+    elif cls == "unknown":
+        name = f"{stem}.{rng.choice(['txt', 'nuc', 'seqs', 'dat'])}{cmp_}"
+    elif cls == "upper":
+        name = f"{stem}.{rng.choice([fmt.upper(), rng.choice(OTHER_SUFFIX[fmt]).upper(), 'TXT'])}{cmp_.upper() if rng.random() < 0.5 else cmp_}"
+    elif cls == "multidot":
+        name = f"a.b.c.{rng.choice([fmt, rng.choice(OTHER_SUFFIX[fmt]), 'txt', 'v2'])}{cmp_}"
+    else:
+        name = f"{stem}.{fmt}{cmp_}"
+    return name, cls
+
+
+def explicit_once(scratch, kind, fmt, fname, loader, names, seqs, mt):
+    """obj.write(path, format=fmt) then load_*(path, format=fmt): the explicit format decides, whatever the suffix
+    says.  loader in aligned / unaligned / seq (load_seq returns the first record).  None if the property holds."""
+    import cogent3
+
+    path = os.path.join(str(scratch), fname)
+    want_names = [trunc_name(n) if fmt == "phylip" else n for n in names]
+    want = [[a, b] for a, b in zip(want_names, seqs)]
+    stage = "make"
+    try:
+        obj = _make(kind, names, seqs, mt)
+        stage = "write"
+        if kind == "collection_new":
+            obj.write(path, file_format=fmt)
+        else:
+            obj.write(path, format=fmt)
+        stage = "load"
+        new = kind == "collection_new"
+        if loader == "aligned":
+            back = cogent3.load_aligned_seqs(path, format=fmt, moltype=mt, array_align=kind != "alignment")
+        elif loader == "unaligned":
+            back = cogent3.load_unaligned_seqs(path, format=fmt, moltype=mt, new_type=new)
+        else:
+            sq = cogent3.load_seq(path, format=fmt, moltype=mt, new_type=new)
+            back = None
+            got = [[str(sq.name), str(sq)]]
+            want = want[:1]
+        if back is not None:
+            d = back.to_dict()
+            got = [[str(n), str(d[n])] for n in back.names]
+    except Exception as e:  # noqa: BLE001
+        got = {"err": type(e).__name__, "stage": stage, "msg": str(e)[:160]}
+    finally:
+        try:
+            os.unlink(path)
+        except OSError:
+            pass
+    if got == want:
+        return None
+    if isinstance(got, dict):
+        cls = f"exc:{stage}:{got['err']}"
+    elif [g[0] for g in got] != [w[0] for w in want]:
+        cls = "names"
+    else:
+        cls = "seqs"
+    return cls, want, got
+
+
 def _agree_once(scratch, text, want, tag="ag"):
     """all FASTA parser variants on one well-formed file; returns list of (sig, expected, got, which)"""
     from pathlib import Path
@@ -1151,6 +1214,29 @@ def spec_check(ctx, budget):
             elif len(out["samples"]) < 3 and len(names) > 2 and cmp_:
                 out["samples"].append(dict(check="roundtrip", kind=kind, file=f"x.{sfx}{cmp_}", names=names, seq_len=len(seqs[0]), result="identical"))
 
+    # ---- A2. explicit format= on write AND load; the file name's suffix is irrelevant then ------------------------
+    for i in range(60 * budget):
+        ragged = i % 5 == 4
+        mt, names, seqs = gen_recset(rng, ragged=ragged, distinct_trunc=True, small=i % 2 == 0)
+        fmt = rng.choice(EXPLICIT_FORMATS if not ragged else ["fasta", "gde"])
+        kind = rng.choice(["collection", "collection_new"] if ragged else KINDS)
+        loader = rng.choice(["aligned", "aligned", "unaligned", "seq"] if kind in ("array_align", "alignment") else ["unaligned", "unaligned", "seq"])
+        fname, ncls = gen_filename(rng, fmt)
+        res = explicit_once(scratch, kind, fmt, fname, loader, names, seqs, mt)
+        out["evaluations"] += 1
+        out["nontrivial"].add(("explicit", kind, fmt, fname, loader, tuple(names), tuple(seqs)))
+        bump(out, "explicit_suffix_class", ncls)
+        bump(out, "explicit_format", fmt)
+        bump(out, "explicit_loader", loader)
+        if res is not None:
+            cls, want, got = res
+            sig = f"explicit:{ncls}:{loader}:{cls}"
+            _spec_fail(out, f"write(format={fmt!r}) / load(format={fmt!r}) round trip through {fname!r} differs ({sig})",
+                       dict(check="explicit", kind=kind, fmt=fmt, fname=fname, loader=loader, names=names, seqs=seqs, moltype=mt),
+                       want, got, sig)
+        elif len(out["samples"]) < 5 and ncls == "other-format":
+            out["samples"].append(dict(check="explicit format", kind=kind, format=fmt, file=fname, loader=loader, result="identical"))
+
     # ---- B. parser variants agree, labels verbatim ------------------------------
     for i in range(120 * budget):
         mt, names, seqs = gen_recset(rng, ragged=True, distinct_trunc=False, small=i % 2 == 0)
@@ -1353,6 +1439,10 @@ def _rerun(ctx, inp):
         for sig, w, got, which in _agree_once(scratch, inp["text"], want, tag="rp"):
             if inp.get("variant") in (None, which):
                 add_failure(out, "spec", f"FASTA parser variant {which} differs ({sig})", dict(inp, variant=which), w, got, sig=sig)
+    elif chk == "explicit":
+        res = explicit_once(scratch, inp["kind"], inp["fmt"], inp["fname"], inp["loader"], inp["names"], inp["seqs"], inp["moltype"])
+        if res:
+            add_failure(out, "spec", f"explicit format round trip differs ({res[0]})", inp, res[1], res[2], sig=f"explicit:{res[0]}")
     elif chk == "variants":
         for sig, w, got, which in variants_once(scratch, inp["stream"], inp["text"], inp.get("want")):
             add_failure(out, "spec", f"parser variants disagree ({sig}): {which}", dict(inp, variant=which), w, got, sig=sig)
